@@ -7,6 +7,8 @@ CONSTANTS
   Strangers = {0}
   EraseFirst = FALSE
   KeepOnResponse = FALSE
+  PeerIds = {1, 2}
+  AsyncIntoRequestRing = FALSE
 SPECIFICATION Spec
 INVARIANTS CallbackAtMostOnce
 CHECK_DEADLOCK FALSE
